@@ -175,10 +175,10 @@ def gen(seed, tier):
                 out.append(f"rot90 {a} z{k_} {lst(bad)}")
         out.append(f"rot90 {a} z1 l0")
         out.append(f"rot90 {a} z1 l0,1,2")
-        for name in ("quicksort", "QUICKSORT", "quick", "", "stable!", "mergesort "):
+        for name in ("quicksort", "QUICKSORT", "quick", "", "stable!", "mergesort ", "q", "m", "h", "s", "heap", "stablee", "sort", " stable"):
             out.append(f"sort {a} n s{hexs(name)}")
             out.append(f"argsort {a} n s{hexs(name)}")
-        for name in ("big", "little", "Big", "LITTLE", "", "middle"):
+        for name in ("big", "little", "Big", "LITTLE", "", "middle", "b", "l", "bi", "bigg", "lit", "little ", "big-endian"):
             out.append(f"unpack_bits {arr(sh, [5] * tot)} n n s{hexs(name)}")
             out.append(f"pack_bits {arr(sh, [1] * tot)} n s{hexs(name)}")
     out.append("max a0: n")
@@ -226,6 +226,10 @@ def gen(seed, tier):
             M("indices_at", ty, f"{a} {lst([2 ** 31])}")
             for name in ("nope", "", "Full", "valid "):
                 M("convolve", ty, f"{arr([3])} {arr([2])} s{hexs(name)}")
+            # names that are NOT a convolve mode — among them prefixes, extensions and near misses of the three modes:
+            # every one must be answered with an error value (seeded change C09n: only the first letter was looked at)
+            for name in ("nope", "", "f", "fu", "ful", "foo", "fft", "full ", "fulll", " full", "v", "vaild", "valid_", "s", "sme", "sum", "symmetric", "same_", "sam", "err"):
+                out.append(f"mone@{ty} s{hexs('convolve')} {arr([3])} {arr([2])} s{hexs(name)}")
             M("clip", ty, f"{a} {arr([4], [0, 1, 2, 3])} n")
             M("clip", ty, f"{a} n {arr([2, 5], list(range(10)))}")
         for ax in [n, n + 1, -n - 1, -n - 2] + BIG:
